@@ -21,7 +21,8 @@ EXPLANATION = (
     "persisted schema raises; (R6) no fail-open 'table absent' answer (C10.R4)."
     " Also: (R7) the pointer is written after the metadata file, by the two sanctioned writers only; (R8) recovery's listing is complete."
     " (R9) a pointer naming a missing file leads to recovery, not to 'no table' (shared with C10.R2); (R10) no truthiness test of a version number (shared with C10.R12); R2 additionally requires the conflict handler to catch exactly CASConflictError."
-    ' (R11) the conditional pointer PUT is never retried (C20.R3); (R12) only the sanctioned functions write the pointer (C09.R1).')
+    ' (R11) the conditional pointer PUT is never retried (C20.R3); (R12) only the sanctioned functions write the pointer (C09.R1).'
+    " (R13) recovery's S3 listing walks every page (C20.R10); (R14) UTC ages (C20.R11); (R15) an AMBIGUOUS create-if-absent pointer write keeps the creator's metadata file (no delete on that path of initialize_table).")
 NOT_DECIDED = "the interleavings; that every caller ends on the same table at run time"
 
 MM = "metadata_manager.MetadataManager"
